@@ -181,6 +181,8 @@ class Canon:
             if op == "()" and len(cc) >= 2:
                 return "%s(%s)" % (self.c(cc[1]), ", ".join(self.c(x) for x in cc[2:]))
             if len(cc) == 3:
+                if self.uniform and op in (">", ">="):
+                    return "(%s %s %s)" % (self.c(cc[2]), "<" if op == ">" else "<=", self.c(cc[1]))
                 return "(%s %s %s)" % (self.c(cc[1]), op, self.c(cc[2]))
             if len(cc) == 2:
                 return "%s%s" % (op, self.c(cc[1]))
@@ -209,6 +211,10 @@ class Canon:
             return "%s%s(%s)" % (o + "." if o not in ("this", "") else "", name, args)
         if k == "CallExpr":
             c = s.get("callee")
+            if self.uniform and c and c.get("q") in ("std::max", "std::min") and len(s["c"]) == 3:
+                # std::max(a, b) is (a < b) ? b : a;  std::min(a, b) is (b < a) ? b : a
+                a, b = self.c(s["c"][1]), self.c(s["c"][2])
+                return "((%s < %s) ? %s : %s)" % ((a, b, b, a) if c["q"] == "std::max" else (b, a, b, a))
             name = c["n"] if c else self.c(s["c"][0])
             return "%s(%s)" % (name, ", ".join(self.c(a) for a in s["c"][1:]))
         if k in ("CXXConstructExpr", "CXXTemporaryObjectExpr"):
@@ -219,6 +225,9 @@ class Canon:
         if k in ("CXXFunctionalCastExpr", "CStyleCastExpr", "CXXStaticCastExpr"):
             return self.c(s["c"][0])
         if k in ("BinaryOperator", "CompoundAssignOperator"):
+            if self.uniform and s.get("op") in (">", ">="):
+                # one direction for order comparisons inside values: a > b is b < a
+                return "(%s %s %s)" % (self.c(s["c"][1]), "<" if s["op"] == ">" else "<=", self.c(s["c"][0]))
             return "(%s %s %s)" % (self.c(s["c"][0]), s.get("op"), self.c(s["c"][1]))
         if k == "UnaryOperator":
             if s.get("postfix"):
